@@ -6,4 +6,4 @@ CONSTANTS
   SweepFirst = 1000
   MaxFields = 128
   TruncEveryMax = 100000
-INVARIANTS PlanWellFormed Emit
+INVARIANTS StepsAgree IdentWellFormed PlanWellFormed Emit
